@@ -60,6 +60,8 @@ TrReset ==
   /\ stale' = {} /\ ticket' = [p \in Procs |-> 0] /\ nextTicket' = 1 /\ ops' = 0
   /\ last' = [a |-> "Init", p |-> "", id |-> 0, res |-> 0]
 
+\* "stuck" (every unfinished caller parked in cond.Wait for good) and "panic" lines are observations that
+\* no action of the guard explains: a trace containing one is rejected at that line.
 TraceNext == TrEnq \/ TrGrant \/ TrTry \/ TrRel \/ TrReset
 TraceSpec == TraceInit /\ [][TraceNext]_tvars
 
